@@ -21,7 +21,7 @@ from vt.contract import Contract, contract
 from vt.gfi import enc
 from vt.stubs import autodiff as AD, dists, jaxpr07 as J, jnp as jnp_stub, jtu as jtu_stub, lax as lax_stub, vmap as vmap_stub
 from vt.sym import Assumed, EngineLimit, Sym, V, _lift, boolean, documented, engine, fresh, integer, real, value
-from vt.tensor import Tensor, mk_sum, _toreal
+from vt.tensor import Tensor, mk_sum, _toreal, dim_eq
 from . import _patch  # noqa: F401
 from . import seed as S  # pjax API-model patches (Environment)
 from .core_gfi import same
@@ -634,7 +634,7 @@ class Estimate(_NoReplay):
     """estimate(*args) = primal of jvp_estimate on duals whose tangents are ZEROS WITH THE SHAPE AND TANGENT TYPE OF
     EACH ARGUMENT LEAF (array arguments need array tangents for shape-sensitive JVP rules, integer ones float0)"""
 
-    cases = ["scalar_array_int_pytree"]
+    cases = ["scalar_array_int_pytree", "scalar_array_int_pytree:the_program_raises"]
     native = "estimate"
 
     def call(self, case):
@@ -645,6 +645,10 @@ class Estimate(_NoReplay):
         class Prog:
             def jvp_estimate(s, duals, kont):
                 outer.seen.append((duals, kont))
+                if "the_program_raises" in case:
+                    # the wrapped program rejects these arguments (the plain function would too): the caller may catch
+                    # this and go on - nothing interpreter-wide may be left behind (frame condition on module state)
+                    raise documented(ValueError("the program rejects these arguments"))
                 return Dual("the-primal", "the-tangent")
 
         self.ex = adev.Expectation(Prog())
@@ -653,6 +657,9 @@ class Estimate(_NoReplay):
         return self.real(self.ex.estimate, *self.args)
 
     def ensures(self, case, path):
+        if "the_program_raises" in case:
+            yield "the_programs_exception_propagates", path.outcome == "raise" and len(self.seen) == 1
+            return
         yield "does_not_raise", path.outcome == "return"
         if path.outcome != "return":
             return
@@ -946,12 +953,31 @@ class ReinforceC(_Prim):
     """v ~ sampler(theta); estimate (f(v), f'(v) + f(v) * d/dtheta logpdf(v; theta)[theta']) with the tangent of THIS
     primitive's own logpdf at the drawn value (zero tangent for v)"""
 
-    cases = ["one_parameter", "two_parameters"]
+    cases = ["one_parameter", "two_parameters", "one_parameter:vector_valued_integrand"]
 
     def call(self, case):
         reset()
         self.k = Kont(z3.RealSort())
-        n = 1 if case == "one_parameter" else 2
+        if "vector_valued_integrand" in case:
+            # the rest of the program returns a VECTOR f(v) in R^m: component j of the estimate is
+            # f'_j(v) + f_j(v) * score (the score multiplies each component of the integrand, it is not summed over them)
+            k = self.k
+            self.m = fresh("m", z3.IntSort())
+            engine().assume(self.m >= 1)
+            nm = engine().fresh_name
+            self.KPv = z3.Function(nm("KPvec"), z3.RealSort(), z3.IntSort(), z3.RealSort())
+            self.KTv = z3.Function(nm("KTvec"), z3.RealSort(), z3.IntSort(), z3.RealSort())
+
+            def kdual(*duals):
+                k.dcalls.append(duals)
+                d = duals[0]
+                if not AD.is_zero_tangent(d.tangent):
+                    raise EngineLimit("vector continuation with a non-zero input tangent")
+                x = _lift(d.primal)
+                return Dual(Tensor((self.m,), lambda idx: self.KPv(x, idx[0])), Tensor((self.m,), lambda idx: self.KTv(x, idx[0])))
+
+            k.kdual = kdual
+        n = 1 if case.startswith("one_parameter") else 2
         self.th = [real("theta%d" % i) for i in range(n)]
         self.dth = [real("dtheta%d" % i) for i in range(n)]
         self.LP = z3.Function("LPr", *([z3.RealSort()] * (n + 1)), z3.RealSort())
@@ -993,6 +1019,15 @@ class ReinforceC(_Prim):
         score = z3.Sum([self.PD[i](*prims) * self.dth[i].e for i in range(len(self.th))])
         out = path.value
         yield "continuation_run_once_on_the_draw_with_zero_tangent", len(k.dcalls) == 1
+        if "vector_valued_integrand" in case:
+            j = fresh("j", z3.IntSort())
+            ok = isinstance(out.primal, Tensor) and isinstance(out.tangent, Tensor) and out.primal.ndim == 1 and out.tangent.ndim == 1
+            yield "value_and_tangent_are_vectors_of_the_integrands_length", ok and dim_eq(out.primal.shape[0], self.m) and dim_eq(out.tangent.shape[0], self.m)
+            if ok:
+                rng = z3.And(j >= 0, j < self.m)
+                yield "value_is_f(v)_componentwise", z3.Implies(rng, out.primal.fn((j,)) == self.KPv(v, j))
+                yield "tangent_j_is_f'_j(v)_plus_f_j(v)_times_score", z3.Implies(rng, out.tangent.fn((j,)) == self.KTv(v, j) + self.KPv(v, j) * score)
+            return
         yield "value_is_f(v)", same(out.primal, Sym(k.KP(v)))
         yield "tangent_is_f'(v)_plus_f(v)_times_score", same(out.tangent, Sym(k.KT(v) + k.KP(v) * score))
 
@@ -1450,6 +1485,8 @@ def bound_params(cls_name, args, kwargs):
     import inspect
     import tensorflow_probability.substrates.jax as tfp
 
+    if not hasattr(tfp.distributions, cls_name):
+        raise EngineLimit("constructor %r is not a TFP distribution class" % (cls_name,))
     names = [p for p in inspect.signature(getattr(tfp.distributions, cls_name).__init__).parameters if p != "self"]
     b = dict(zip(names, args))
     b.update(kwargs)
@@ -1498,10 +1535,12 @@ class ReinforcePairing(_NoReplay):
         ctor = cs.cell_contents
         self.log_base = []
         lb = self.log_base
-        if getattr(ctor, "__name__", "") == "<lambda>":
+        import inspect
+
+        if inspect.isfunction(ctor):  # a constructor written in the repository (a lambda or a helper): run it on a recording TFP
             self._dtfd = D.tfd
             D.tfd = stub2 = StubNS()
-            for nm in ("Bernoulli", "Categorical"):
+            for nm in ("Bernoulli", "Geometric", "Normal", "Uniform", "MultivariateNormalFullCovariance", "Categorical", "MultivariateNormalDiag"):
                 setattr(stub2, nm, (lambda nm: lambda *a, **k: TfpRec2(lb, nm, a, k))(nm))
             try:
                 self.real(ctor, *self.args)
